@@ -25,3 +25,17 @@ CLAIMED["C04"] = {
             "serialize is observed on zeroed buffers; frames longer than 65535 octets are outside the theorem (hosts pass <= 2048).",
     "technique": "Lean 4 theorems (structural induction, omega, decide) + translated layout tables + differential correspondence",
 }
+
+CLAIMED["C05"] = {
+    "text": "Proof. Lean theorems over the model of the data set comparison and state decision: the comparison is antisymmetric for "
+            "all data sets; on GM-consistent data whose receivers are not their senders it is exactly the lexicographic order on "
+            "(priority1, class, accuracy, variance, priority2, GM identity, stepsRemoved, sender, receiving port[, age]) — hence a strict "
+            "weak order; the selected Ebest/Erbest is a candidate and no candidate is better; any two presentations of the same "
+            "candidates select equal-key candidates; the recommended state equals an independently written Figure 33 for every own "
+            "data set, Ebest, Erbest and prior state; S1 carries Ebest. The unrestricted transitivity claim is refuted by a kernel-checked "
+            "witness (IEEE's algorithm itself). Tie: exhaustive/random CMP stream, BMCA scenarios through real ports and the mixed stream, "
+            "all compared with the model; independent Rust transcription of Figures 34/35 and an order-permutation oracle on the implementation.",
+    "note": "Trusted: Lean kernel; Spec/StateDecision.lean; generators. Instance-level permutation invariance of the whole bmca() call is "
+            "validated by the oracle, proved only for the selection function (findBest_perm).",
+    "technique": "Lean 4 theorems (order characterisation, fold invariant, case analysis) + differential correspondence through PtpInstance::bmca",
+}
